@@ -9,5 +9,8 @@ func init() {
 	}
 	constVariants["tiny"] = map[string]map[string]string{
 		"github.com/ozontech/seq-db/consts": {"IDsBlockSize": "4", "IDsPerBlock": "4", "LIDBlockCap": "8", "RegularBlockSize": "64"},
+		// the cache re-creates its map once it held >= recreateThreshold entries and a cleaning pass leaves
+		// at most 1/excessiveSizeFactor of them (shipped: 200 and 10): reachable with a handful of keys
+		"github.com/ozontech/seq-db/cache": {"recreateThreshold": "4", "excessiveSizeFactor": "2"},
 	}
 }
